@@ -113,6 +113,8 @@ class ImageBatch(DataTensor):
         grids = [g for g in (getattr(arg, "_grid", None) for arg in args) if g is not None]
         if not grids:
             return None
+        if dim < 0:
+            dim += next(arg.ndim for arg in args if getattr(arg, "_grid", None) is not None)
         if dim == 0:
             if func == torch.cat:
                 return [g for grid in grids for g in grid]
